@@ -29,36 +29,6 @@ Definition eng_of (tbl : list oentry) : engine :=
     existsb (fun e => Bool.eqb (oe_host e) h && mtype_eqb (oe_type e) t &&
                       String.eqb (oe_pat e) p && String.eqb (oe_val e) v && oe_ans e) tbl.
 
-(* ---- equality of observations *)
-Definition strs_eqb := list_eqb String.eqb.
-Definition call_eqb (a b : call) : bool :=
-  Nat.eqb (k_vid a) (k_vid b) && strs_eqb (k_keys a) (k_keys b) && strs_eqb (k_vals a) (k_vals b) &&
-  mres_eqb (k_res a) (k_res b).
-Definition kv_eqb (a b : string * string) : bool := String.eqb (fst a) (fst b) && String.eqb (snd a) (snd b).
-Definition caps_eqb := list_eqb kv_eqb.
-Definition outcome_eqb (a b : outcome) : bool :=
-  match a, b with
-  | OPanic, OPanic | ONone, ONone => true
-  | ORule r c x, ORule r' c' x' => Nat.eqb r r' && caps_eqb c c' && Bool.eqb x x'
-  | _, _ => false
-  end.
-
-(* ---- the specification side: routes in rule-set order, independent of create_rule *)
-Record sroute := { sr_rule : nat; sr_def : ruledef; sr_route : route }.
-
-Fixpoint flat_routes (i : nat) (rs : list ruledef) : list sroute :=
-  match rs with
-  | [] => []
-  | r :: rest => map (fun rt => {| sr_rule := i; sr_def := r; sr_route := rt |}) (rl_routes r)
-                 ++ flat_routes (S i) rest
-  end.
-
-Definition sr_tokens (s : sroute) := parse_expr (rt_path (sr_route s)).
-Definition sr_segs (s : sroute) (q : request) := expr_match (sr_tokens s) (split_slash (lookup_path q)).
-
-Definition spec_answer (eng : engine) (s : sroute) (q : request) (segs : list string) : mres :=
-  of_bool (spec_route_ok eng (sr_def s) (rt_params (sr_route s)) q (declared_names (sr_tokens s)) segs).
-
 (** property on one observed matcher call *)
 Definition call_ok (eng : engine) (tbl : list sroute) (q : request) (k : call) : bool :=
   match nth_error tbl (k_vid k) with
@@ -173,7 +143,7 @@ Definition loadobs_eqb (a b : loadobs) : bool :=
   | _, _ => false
   end.
 
-Definition check (c : case) : verdict :=
+Definition check (fx2 fx5 : bool) (c : case) : verdict :=
   let eng := eng_of (c_oracle c) in
   match load (c_rules c) with
   | CreateFailed => {| v_corr := loadobs_eqb (c_load c) OCreateFailed; v_prop := true; v_guards := [] |}
@@ -182,7 +152,7 @@ Definition check (c : case) : verdict :=
   | Loaded es t =>
     let tbl := flat_routes 0 (c_rules c) in
     let rows := map (fun o =>
-                  let '(mout, mcalls) := serve eng es t (ro_req o) in
+                  let '(mout, mcalls) := serve fx2 fx5 eng es t (ro_req o) in
                   (outcome_eqb mout (ro_out o) && list_eqb call_eqb mcalls (ro_calls o),
                    req_prop eng tbl o,
                    g_req eng tbl (ro_req o) mcalls mout)) (c_reqs c) in
